@@ -216,6 +216,8 @@ def level_cfgs(draw, idx: int, nlevels: int, prof: dict):
     if prof.get("small_pops") and (eng in SEA_ENGINES or eng in ("LHS", "Sobol", "Custom")) and draw(st.integers(0, 3)) == 0:
         lv["pop_size"] = draw(st.integers(1, 3))  # legal for the SEA family and the samplers (DE/SHADE need 4, MWEA its group)
     lv["sample_std_frac"] = draw(S_SAMPLEFRAC)
+    if prof.get("wide_sampling") and draw(st.integers(0, 3)) == 0:
+        lv["sample_std_frac"] = 1.0  # a child population sampled as wide as the narrowest side: most proposals are rejected
     if eng in SEA_ENGINES or eng == "MWEA":
         lv["k_elites"] = draw(S_KEL)
         lv["p_mutation"] = draw(S_PMUT_LOW if prof.get("pmut_low") else S_PMUT)
